@@ -119,11 +119,12 @@ Section Border.
   Proof. apply filter_partition_perm. Qed.
 End Border.
 
-(* completed faces are minimal: each is a triangle of some cell *)
-Lemma complete_faces_minimal cells :
-  Forall cell_ok cells -> forall F, In F (complete_faces [] cells) -> exists C, In C cells /\ incl F C.
+(* completed faces are minimal - each lies in some cell - as soon as the declared ones are *)
+Lemma complete_faces_minimal faces0 cells :
+  Forall cell_ok cells -> (forall F, In F faces0 -> exists C, In C cells /\ incl F C) ->
+  forall F, In F (complete_faces faces0 cells) -> exists C, In C cells /\ incl F C.
 Proof.
-  intros HC F HF. destruct (complete_faces_origin cells F HF) as [C [HCin I]].
+  intros HC H0 F HF. destruct (complete_faces_origin faces0 cells F HF) as [I0|[C [HCin I]]]; [now apply H0|].
   exists C. split; [assumption|].
   destruct (tet_faces_in C F (proj1 (Forall_forall _ _) HC C HCin) I) as [i [_ P]].
   intros x Hx. apply (rm_incl i). now apply (Permutation_in _ P).
